@@ -327,6 +327,40 @@ def _work(args: t.Tuple[int, int, int]) -> t.List[t.Any]:
                         out.append((e2, {k2: v for k2, v in obs2.items() if k2 != "raw_emit"} | {"after_refused": e["call"]}, d2, diag(s)))
                         break
                     cur = skey(e2["dst"])
+    # "late response" triples: an accepted call that leaves the abstract state unchanged (an entry for a search, a
+    # reference, ...), then a call that retires an operation, then every call that names the retired id.  The model says
+    # what each must do; an implementation that remembers something about the first call must not let it matter.
+    for j, (k, edges) in enumerate(_G["bysrc"].items()):
+        if j % nw != wid or k not in _G["real"]:
+            continue
+        src = edges[0]["src"]
+        if src["st"] == "CLOSED":
+            continue
+        loops = [e for e in edges if e["call"]["res"] == "ok" and e["dst"] == src and e["call"]["op"] != "recv" or
+                 (e["call"]["res"] == "ok" and e["dst"] == src and e["call"]["op"] == "recv" and len(e["call"]["ms"]) == 1)]
+        retire = [e for e in edges if e["call"]["res"] == "ok" and e["dst"]["st"] != "CLOSED" and set(src["out"]) - set(e["dst"]["out"])]
+        if not loops or not retire:
+            continue
+        for e1 in (loops if len(loops) <= 4 else rnd.sample(loops, 4)):
+            for e2 in (retire if len(retire) <= 4 else rnd.sample(retire, 4)):
+                gone = set(src["out"]) - set(e2["dst"]["out"])
+                s0 = copy.deepcopy(_G["real"][k])
+                if compare(role, e1, do_call(s0, role, e1["call"], rnd)) or compare(role, e2, do_call(s0, role, e2["call"], rnd)):
+                    continue   # reported by the per-edge pass
+                n += 2
+                for e3 in _G["bysrc"].get(skey(e2["dst"]), []):
+                    c3 = e3["call"]
+                    named = (c3["op"] == "send" and c3.get("id") in gone) or (c3["op"] == "recv" and len(c3["ms"]) == 1 and c3["ms"][0]["id"] in gone)
+                    if not named:
+                        continue
+                    s3 = copy.deepcopy(s0)
+                    obs3 = do_call(s3, role, c3, rnd)
+                    n += 1
+                    d3 = compare(role, e3, obs3)
+                    if d3:
+                        hist = f" [after {e1['call'].get('k') or e1['call']['ms']} and then {e2['call'].get('k') or e2['call']['ms']}]"
+                        out.append((e3, {k2: v for k2, v in obs3.items() if k2 != "raw_emit"} | {"history": [e1["call"], e2["call"]]},
+                                    [(p_, sig, txt + hist) for p_, sig, txt in d3], diag(s3)))
     return [n, out]
 
 
